@@ -113,6 +113,42 @@ theorem leg_rm_imm_formOkG (ctx : Spec.X86.Ctx) (rule : Rule) (p : Parsed) (mb :
   exact ⟨⟨hw, by simpa using c66, by simpa using cF3, by simpa using cF2, cF0, c9B, by omega, by simpa using ccont⟩,
     by rcases hmk with h | h <;> omega⟩
 
+/-- legacy shape [rm] (one register operand; `/r` with a free reg field, or a digit), arbitrary register kind -/
+theorem leg_r_formOkG (ctx : Spec.X86.Ctx) (rule : Rule) (p : Parsed) (mb : BitVec 8) (bytes : List (BitVec 8)) (pp d : Nat)
+    (ka : RegKind) (fa : FormOp) (ia : Nat)
+    (hmode : ((if ctx.mode64 then rule.modes &&& 2 else rule.modes &&& 1) != 0) = true)
+    (R : LegRuleD rule 0 pp d) (hdig : d < 8 → bits mb 3 3 = d)
+    (hra : fa.role = .rm)
+    (hreg : regOkB ka ia (regNum false p.B (bits mb 0 3)) p = true)
+    (hal : alignOps rule.oszEff rule.ops [.reg ka ia] = some [(fa, some (.reg ka ia))])
+    (hparse : parse ctx.mode64 rule bytes = .ok p) (P : LegParsed rule p mb pp) :
+    formOk ctx rule [.reg ka ia] {} bytes = true := by
+  obtain ⟨hvk, hpfx, hmodrm, hmod, hop, hw, hR'⟩ := P
+  obtain ⟨hmodes, hs, hpp8, h66, hF3, hF2, hpplt, hri, hmk, hmr, hmrm, himm, hrel, hmoff, ha67, hrev⟩ := R
+  obtain ⟨c66, cF3, cF2, cF0, c9B, c67, cseg, ccont⟩ := count_ppBytes pp hpplt
+  have hleg : isLegacySpace rule = true := by simp [isLegacySpace, hs]
+  have h2 : (opConds ctx rule p 0 fa (.reg ka ia)).2 = 0 := by simp [opConds, hra, hmodrm]
+  simp only [formOk, conds, hal, hparse, hmode]
+  simp only [operandConds, h2]
+  simp only [allOk_cons, allOk_append, decorConds, headConds, prefixConds, modrmConds, opConds, tailConds, hra,
+    allOk_regConds, allOk_nil, memOperandOf, implMemOf, usesVvvv, memDestOf,
+    hasBcst, hleg, hri, hmodrm, hpfx, hvk, c66, cF3, cF2, cF0, c9B, c67, cseg, ccont, h66, hF3, hF2, hR']
+  simp [hop, hreg, hmod, hmr, hmrm, hs, hpp8, ha67, allOk]
+  and_intros
+  all_goals first
+    | exact hw
+    | exact cF0
+    | exact c9B
+    | (rcases hmk with h | h <;> omega)
+    | (intro hh; exact hdig hh)
+    | (intro hh; have := hdig hh; omega)
+    | omega
+    | (simpa using c66)
+    | (simpa using cF3)
+    | (simpa using cF2)
+    | (simpa using ccont)
+    | simp_all
+
 /-- the same with a register as the second operand (fixed `cl` of the shifts: role none) -/
 theorem leg_rm_fixreg_formOkG (ctx : Spec.X86.Ctx) (rule : Rule) (p : Parsed) (mb : BitVec 8) (bytes : List (BitVec 8)) (pp d nimm : Nat)
     (ka : RegKind) (fa f3 : FormOp) (ia : Nat) (k1 : RegKind) (i1 : Nat)
